@@ -136,6 +136,9 @@ type caseState struct {
 func label(vr variant) string {
 	switch vr.K.Name {
 	case "VersionedAttestation":
+		if vr.Var == 3 {
+			return "VersionedAttestation[validator-index-low-word-12-or-20]"
+		}
 		if vr.Var >= 1 {
 			return "VersionedAttestation[no-validator-index]"
 		}
